@@ -144,19 +144,12 @@ Lemma closed_lib_refuses d m L o m' L' r :
   refusal (lmode L) r /\ m' = m /\ lopen L' = false.
 Proof.
   intros HI Ho Ht H. specialize (HI Ho). unfold refusal.
-  destruct o; try discriminate; cbn [step_lib] in H.
-  - destruct (nth_error (d_vars d) v); [|inversion H; subst; auto].
-    destruct (lmode L) eqn:Hm.
-    + cbn in H. rewrite Ho in H. inversion H; subst; cbn; auto.
-    + unfold ool_globsupport in H. rewrite consts_no_var, Ho in H by auto. inversion H; subst; cbn; auto.
-  - destruct (nth_error (d_vars d) v); [|inversion H; subst; auto].
-    destruct (lmode L) eqn:Hm.
-    + cbn in H. rewrite Ho in H. inversion H; subst; cbn; auto.
-    + unfold ool_globsupport in H. rewrite consts_no_var, Ho in H by auto. inversion H; subst; cbn; auto.
-  - unfold fetch_fn in H. destruct (nth_error (d_fns d) f); [|inversion H; subst; auto].
-    rewrite consts_no_fn, Ho in H by auto. inversion H; subst. destruct (lmode L'); auto.
-  - unfold fetch_fn in H. destruct (nth_error (d_fns d) f); [|inversion H; subst; auto].
-    rewrite consts_no_fn, Ho in H by auto. inversion H; subst. destruct (lmode L'); auto.
+  destruct L as [md op dict props addr]; cbn [lmode lopen ldict lprops laddr] in *; subst op.
+  destruct o; try discriminate; cbn [step_lib] in H;
+    unfold fetch_fn, ool_globsupport, inline_prop, with_props, with_dict, with_addr in *;
+    cbn [lmode lopen ldict lprops laddr] in *;
+    rewrite ?consts_no_var, ?consts_no_fn in H by auto;
+    brk; inv_pairs; cbn [lmode lopen closed_exn]; auto.
 Qed.
 
 (* the address of a variable not taken before is refused too *)
@@ -165,11 +158,13 @@ Lemma closed_lib_refuses_addr d m L l v m' L' r :
   step_lib d m L (OpAddr l v) = (m', L', r) ->
   refusal (lmode L) r /\ m' = m /\ lopen L' = false /\ laddr L' = laddr L.
 Proof.
-  intros HI Ho Ha H. specialize (HI Ho). unfold refusal. cbn [step_lib] in H.
-  destruct (nth_error (d_vars d) v); [|inversion H; subst; auto].
-  destruct (lmode L) eqn:Hm.
-  - cbn in H. rewrite Ha, Ho in H. inversion H; subst; cbn; auto.
-  - unfold ool_globsupport in H. rewrite consts_no_var, Ho in H by auto. inversion H; subst; cbn; auto.
+  intros HI Ho Ha H. specialize (HI Ho). unfold refusal.
+  destruct L as [md op dict props addr]; cbn [lmode lopen ldict lprops laddr] in *; subst op.
+  cbn [step_lib] in H;
+    unfold fetch_fn, ool_globsupport, inline_prop, with_props, with_dict, with_addr in *;
+    cbn [lmode lopen ldict lprops laddr] in *;
+    rewrite ?consts_no_var, ?consts_no_fn, ?Ha in H by auto;
+    brk; inv_pairs; cbn [lmode lopen laddr closed_exn]; auto.
 Qed.
 
 (* closed stays closed, whatever is done to it; mode never changes; the addr cache of a
@@ -178,9 +173,12 @@ Lemma closed_stays d m L o m' L' r :
   lopen L = false -> step_lib d m L o = (m', L', r) ->
   lopen L' = false /\ laddr L' = laddr L.
 Proof.
-  intros Ho H. destruct o; cbn [step_lib] in H; unfold fetch_fn, ool_globsupport, inline_prop in H;
-    cbn [lopen with_props with_dict with_addr laddr] in H; rewrite ?Ho in H; brk;
-    inversion H; subst; cbn; auto; try congruence.
+  intros Ho H.
+  destruct L as [md op dict props addr]; cbn [lmode lopen ldict lprops laddr] in *; subst op.
+  destruct o; cbn [step_lib] in H;
+    unfold fetch_fn, ool_globsupport, inline_prop, with_props, with_dict, with_addr in *;
+    cbn [lmode lopen ldict lprops laddr] in *;
+    brk; inv_pairs; cbn [lmode lopen laddr]; auto.
 Qed.
 
 Definition lib_closed (s : state) (l : nat) : Prop :=
@@ -214,7 +212,7 @@ Proof.
   destruct (run d s1 (h1 ++ h2)); destruct (run d s1 h1); cbn in *. auto.
 Qed.
 
-Lemma close_closes d s l : l < length (libs s) -> lib_closed (fst (step d s (OpClose l))) l.
+Lemma close_closes d s l : (l < length (libs s))%nat -> lib_closed (fst (step d s (OpClose l))) l.
 Proof.
   intros Hl. unfold step; cbn [op_lib]. destruct (nth_error (libs s) l) as [L|] eqn:HL.
   - cbn [step_lib]. unfold lib_closed.
@@ -288,19 +286,12 @@ Lemma closed_lib_refuses_declared d m L o m' L' r :
   step_lib d m L o = (m', L', r) -> r = OErr (closed_exn (lmode L)).
 Proof.
   intros HI Ho Ht Hd H. specialize (HI Ho).
-  destruct o; try discriminate; cbn [step_lib declared] in *.
-  - destruct (nth_error (d_vars d) v); [|discriminate].
-    destruct (lmode L) eqn:Hm.
-    + cbn in H. rewrite Ho in H. inversion H; subst; cbn; auto.
-    + unfold ool_globsupport in H. rewrite consts_no_var, Ho in H by auto. inversion H; subst; cbn; auto.
-  - destruct (nth_error (d_vars d) v); [|discriminate].
-    destruct (lmode L) eqn:Hm.
-    + cbn in H. rewrite Ho in H. inversion H; subst; cbn; auto.
-    + unfold ool_globsupport in H. rewrite consts_no_var, Ho in H by auto. inversion H; subst; cbn; auto.
-  - unfold fetch_fn in H. destruct (nth_error (d_fns d) f); [|discriminate].
-    rewrite consts_no_fn, Ho in H by auto. inversion H; subst. auto.
-  - unfold fetch_fn in H. destruct (nth_error (d_fns d) f); [|discriminate].
-    rewrite consts_no_fn, Ho in H by auto. inversion H; subst. auto.
+  destruct L as [md op dict props addr]; cbn [lmode lopen ldict lprops laddr] in *; subst op.
+  destruct o; try discriminate; cbn [step_lib declared] in *;
+    unfold fetch_fn, ool_globsupport, inline_prop, with_props, with_dict, with_addr in *;
+    cbn [lmode lopen ldict lprops laddr] in *;
+    rewrite ?consts_no_var, ?consts_no_fn in H by auto;
+    brk; inv_pairs; cbn [lmode lopen closed_exn]; auto; try discriminate.
 Qed.
 
 (* close is idempotent: the second close changes nothing and returns None like the first *)
@@ -316,7 +307,7 @@ Proof.
   - cbn. rewrite HL. reflexivity.
 Qed.
 
-Theorem close_returns_none d s l : l < length (libs s) -> snd (step d s (OpClose l)) = ONone.
+Theorem close_returns_none d s l : (l < length (libs s))%nat -> snd (step d s (OpClose l)) = ONone.
 Proof.
   intros Hl. unfold step; cbn [op_lib]. destruct (nth_error (libs s) l) as [L|] eqn:HL.
   - cbn [step_lib]. destruct (lmode L); [|destruct (lopen L)]; reflexivity.
@@ -354,9 +345,12 @@ Qed.
 Lemma step_lib_open_status d m L o m' L' r :
   (forall l, o <> OpClose l) -> step_lib d m L o = (m', L', r) -> lopen L' = lopen L.
 Proof.
-  intros Hn H. destruct o; cbn [step_lib] in H; unfold fetch_fn, ool_globsupport, inline_prop in H;
-    cbn [lopen with_props with_dict with_addr laddr] in H; brk; inversion H; subst; cbn; auto.
-  exfalso; eapply Hn; eauto. exfalso; eapply Hn; eauto. exfalso; eapply Hn; eauto.
+  intros Hn H.
+  destruct L as [md op dict props addr]; cbn [lmode lopen ldict lprops laddr] in *.
+  destruct o; cbn [step_lib] in H;
+    unfold fetch_fn, ool_globsupport, inline_prop, with_props, with_dict, with_addr in *;
+    cbn [lmode lopen ldict lprops laddr] in *;
+    brk; inv_pairs; cbn [lmode lopen laddr]; auto; exfalso; eapply Hn; eauto.
 Qed.
 
 Theorem only_close_closes d s o i :
